@@ -27,15 +27,18 @@ the same numbers (other order of min/max, `x ** e`, renamed locals) is silent.
 A runtime scan (labelled as such; it is about libm, not a theorem) checks that
 the 4096 readings per sensor never increase with the code.
 """
+import ast
+import copy
 import importlib
 import json
 import math
 import os
 import sys
 import threading
+import time
 from fractions import Fraction
 
-from .common import CORPUS
+from .common import CORPUS, REPO
 
 # the model's parameter sets, only used to choose the helper lemma (clamp
 # branch) for a sample; a wrong choice can only make a lemma fail
@@ -394,6 +397,284 @@ def remembers_lemma(name, S, d, g):
 
 
 # ---------------------------------------------------------------------------
+# regenerated data: the literals of the two source files, read with `ast`
+# ---------------------------------------------------------------------------
+# Fail closed: anything that does not have one of the recognised shapes raises
+# Shape; the caller records the `regen:` obligation as broken (nothing is
+# guessed) and the normal counter-example search decides what is reported.
+#
+# Recognised, after inlining the straight-line local assignments of the method
+# (so renamed or inlined locals do not matter):
+#   driver.getDistance():  CLAMP( C * POW( max(self.distance.getVoltage(), FL), E ) )
+#   helper.setDistance(d): self.<field> = d   (the raw parameter)
+#                          <...>.setVoltage( POW( CLAMP(d) / C , EX ) )
+#   helper.getDistance():  return self.<field>
+#   CLAMP(x) = max(min(x, HI), LO) | min(max(x, LO), HI)      arguments in any order
+#   POW(b,y) = math.pow(b, y) | b ** y
+#   C * P | P * C;   x / C | x * (1 / C) | (1 / C) * x;   EX = A / B | literal
+# Literals are numeric constants (optionally signed); their SOURCE TEXT is read
+# as an exact decimal.
+class Shape(Exception):
+    pass
+
+
+def _lit(src, node):
+    sign = 1
+    while isinstance(node, ast.UnaryOp) and isinstance(node.op, (ast.USub, ast.UAdd)):
+        if isinstance(node.op, ast.USub):
+            sign = -sign
+        node = node.operand
+    if not isinstance(node, ast.Constant) or isinstance(node.value, bool) or not isinstance(node.value, (int, float)):
+        return None
+    text = ast.get_source_segment(src, node)
+    try:
+        f = Fraction(text)
+    except (TypeError, ValueError, ZeroDivisionError):
+        raise Shape("numeric literal %r is not a plain decimal" % (text,))
+    if float(f) != float(node.value):
+        raise Shape("numeric literal %r does not read back as %r" % (text, node.value))
+    return sign * f
+
+
+def _subst(node, env):
+    class T(ast.NodeTransformer):
+        def visit_Name(self, n):
+            if isinstance(n.ctx, ast.Load) and n.id in env:
+                return copy.deepcopy(env[n.id])
+            return n
+    return T().visit(copy.deepcopy(node))
+
+
+def _call(node, name):
+    if not isinstance(node, ast.Call) or node.keywords:
+        return None
+    f = node.func
+    if name in ("max", "min") and isinstance(f, ast.Name) and f.id == name:
+        return node.args
+    if name == "pow" and isinstance(f, ast.Attribute) and f.attr == "pow" and isinstance(f.value, ast.Name) \
+            and f.value.id == "math":
+        return node.args
+    return None
+
+
+def _one_lit(src, args, what):
+    if args is None or len(args) != 2:
+        raise Shape("%s: expected two arguments" % what)
+    la, lb = _lit(src, args[0]), _lit(src, args[1])
+    if (la is None) == (lb is None):
+        raise Shape("%s: expected exactly one numeric literal" % what)
+    return (la, args[1]) if la is not None else (lb, args[0])
+
+
+def _clamp(src, node, what):
+    """-> (x, lo, hi)"""
+    for outer, inner in (("max", "min"), ("min", "max")):
+        args = _call(node, outer)
+        if args is not None:
+            l1, n1 = _one_lit(src, args, what + " " + outer)
+            l2, x = _one_lit(src, _call(n1, inner), what + " inner " + inner)
+            return (x, l1, l2) if outer == "max" else (x, l2, l1)
+    raise Shape("%s: not max(min(x, HI), LO) / min(max(x, LO), HI)" % what)
+
+
+def _power(node, what):
+    a = _call(node, "pow")
+    if a is not None and len(a) == 2:
+        return a[0], a[1]
+    if isinstance(node, ast.BinOp) and isinstance(node.op, ast.Pow):
+        return node.left, node.right
+    raise Shape("%s: not math.pow(b, y) / b ** y" % what)
+
+
+def _straight(fn, env):
+    """inline a straight-line method body -> (self-attribute stores, call statements, returned expression)"""
+    stores, calls, ret = {}, [], None
+    for st in fn.body:
+        if isinstance(st, ast.Expr) and isinstance(st.value, ast.Constant) and isinstance(st.value.value, str):
+            continue
+        if isinstance(st, ast.Assign) and len(st.targets) == 1:
+            t, val = st.targets[0], _subst(st.value, env)
+            if isinstance(t, ast.Name):
+                env[t.id] = val
+                continue
+            if isinstance(t, ast.Attribute) and isinstance(t.value, ast.Name) and t.value.id == "self":
+                stores[t.attr] = val
+                continue
+        if isinstance(st, ast.Expr) and isinstance(st.value, ast.Call):
+            calls.append(_subst(st.value, env))
+            continue
+        if isinstance(st, ast.Return) and st is fn.body[-1]:
+            ret = _subst(st.value, env) if st.value is not None else None
+            continue
+        raise Shape("%s(): statement `%s` at line %d is not straight-line" % (fn.name, type(st).__name__, st.lineno))
+    return stores, calls, ret
+
+
+def _method(tree, cls, name):
+    for c in tree.body:
+        if isinstance(c, ast.ClassDef) and c.name == cls:
+            for f in c.body:
+                if isinstance(f, ast.FunctionDef) and f.name == name:
+                    if f.decorator_list:
+                        raise Shape("%s.%s is decorated" % (cls, name))
+                    return f
+    raise Shape("%s.%s not found" % (cls, name))
+
+
+def _is_self_attr(node):
+    return isinstance(node, ast.Attribute) and isinstance(node.value, ast.Name) and node.value.id == "self"
+
+
+def extract_driver(src, tree, cls):
+    fn = _method(tree, cls, "getDistance")
+    stores, calls, ret = _straight(fn, {})
+    if stores or calls or ret is None:
+        raise Shape("%s.getDistance(): more than assignments and a return" % cls)
+    x, lo, hi = _clamp(src, ret, cls + ".getDistance() result")
+    if not (isinstance(x, ast.BinOp) and isinstance(x.op, ast.Mult)):
+        raise Shape("%s.getDistance(): clamped value is not C * power" % cls)
+    c, pw = _one_lit(src, [x.left, x.right], cls + " coefficient")
+    base, en = _power(pw, cls + " power law")
+    e = _lit(src, en)
+    if e is None:
+        raise Shape("%s: exponent is not a literal" % cls)
+    fl, v = _one_lit(src, _call(base, "max"), cls + " voltage floor max(getVoltage(), FL)")
+    if not (isinstance(v, ast.Call) and not v.args and not v.keywords and isinstance(v.func, ast.Attribute)
+            and v.func.attr == "getVoltage" and _is_self_attr(v.func.value) and v.func.value.attr == "distance"):
+        raise Shape("%s: floored value is not self.distance.getVoltage()" % cls)
+    return {"c": c, "e": e, "lo": lo, "hi": hi, "fl": fl}
+
+
+def extract_helper(src, tree, cls):
+    g = _method(tree, cls, "getDistance")
+    gs, gc, gret = _straight(g, {})
+    if gs or gc or not _is_self_attr(gret):
+        raise Shape("%s.getDistance() is not `return self.<field>`" % cls)
+    field = gret.attr
+    fn = _method(tree, cls, "setDistance")
+    if len(fn.args.args) != 2 or fn.args.vararg or fn.args.kwarg or fn.args.kwonlyargs or fn.args.defaults:
+        raise Shape("%s.setDistance signature" % cls)
+    raw = ast.Name(id="$d", ctx=ast.Load())
+    stores, calls, ret = _straight(fn, {fn.args.args[1].arg: raw})
+    if ret is not None:
+        raise Shape("%s.setDistance returns a value" % cls)
+    remembers = set(stores) == {field} and isinstance(stores[field], ast.Name) and stores[field].id == "$d"
+    if set(stores) != {field}:
+        raise Shape("%s.setDistance stores %s, getDistance reads %s" % (cls, sorted(stores), field))
+    if len(calls) != 1 or not (isinstance(calls[0].func, ast.Attribute) and calls[0].func.attr == "setVoltage"
+                               and len(calls[0].args) == 1 and not calls[0].keywords):
+        raise Shape("%s.setDistance: expected exactly one <sim>.setVoltage(v) call" % cls)
+    base, exn = _power(calls[0].args[0], cls + " inverse power law")
+
+    def recip(n):
+        if isinstance(n, ast.BinOp) and isinstance(n.op, ast.Div) and _lit(src, n.left) == 1:
+            return _lit(src, n.right)
+        return None
+    if isinstance(base, ast.BinOp) and isinstance(base.op, ast.Div) and _lit(src, base.right) is not None:
+        cl, c = base.left, _lit(src, base.right)
+    elif isinstance(base, ast.BinOp) and isinstance(base.op, ast.Mult) and recip(base.right) is not None:
+        cl, c = base.left, recip(base.right)
+    elif isinstance(base, ast.BinOp) and isinstance(base.op, ast.Mult) and recip(base.left) is not None:
+        cl, c = base.right, recip(base.left)
+    else:
+        raise Shape("%s: base of the power is not CLAMP(d) / C" % cls)
+    x, lo, hi = _clamp(src, cl, cls + ".setDistance clamp")
+    if not (isinstance(x, ast.Name) and x.id == "$d"):
+        raise Shape("%s: the clamped value is not the parameter" % cls)
+    ex = _lit(src, exn)
+    if ex is None:
+        if not (isinstance(exn, ast.BinOp) and isinstance(exn.op, ast.Div)):
+            raise Shape("%s: exponent is neither a literal nor A / B" % cls)
+        a, b = _lit(src, exn.left), _lit(src, exn.right)
+        if a is None or b is None or b == 0:
+            raise Shape("%s: exponent A / B with non-literal or zero parts" % cls)
+        ex = a / b
+    if c == 0:
+        raise Shape("%s: division by a zero coefficient" % cls)
+    return {"sim_c": c, "sim_lo": lo, "sim_hi": hi, "sim_ex": ex, "remembers": remembers, "field": field}
+
+
+def regen_extract(repo):
+    """-> ({key: dict of Fractions}, [(obligation name, ok, detail)])"""
+    out, obs = {}, []
+    for fname, kind in (("distance_sensors.py", "driver"), ("distance_sensors_sim.py", "helper")):
+        path = os.path.join(repo, "robotpy_ext", "common_drivers", fname)
+        try:
+            src = open(path).read()
+            tree = ast.parse(src)
+        except (OSError, SyntaxError, ValueError) as ex:
+            obs.append(("regen:%s can be read and parsed" % fname, False, repr(ex)))
+            continue
+        for S in SENSORS:
+            cls = S["cls"] if kind == "driver" else S["sim"]
+            name = "regen:%s has the recognised shape (literals read as exact decimals)" % cls
+            try:
+                vals = (extract_driver if kind == "driver" else extract_helper)(src, tree, cls)
+            except Shape as ex:
+                obs.append((name, False, str(ex)))
+                continue
+            except Exception as ex:  # noqa: BLE001 - fail closed
+                obs.append((name, False, "extractor error %r" % (ex,)))
+                continue
+            obs.append((name, True, ""))
+            out.setdefault(S["key"], {}).update(vals)
+    return out, obs
+
+
+def frac(f):
+    n, d = f.numerator, f.denominator
+    return "(%s / %d)" % (("(%d)" % n) if n < 0 else str(n), d)
+
+
+def regen_files(vals):
+    """Gen_ir.v (definitions) + per sensor Gen_ir_K.v (re-proved facts, instantiated theorems) and
+    Gen_ds_K.v (regenerated constants = datasheet values of the property text = the model's)"""
+    full = [S for S in SENSORS if {"c", "sim_c"} <= set(vals.get(S["key"], {}))]
+    gen = "From Coq Require Import Reals.\nFrom RV Require Import IR.Model.\nOpen Scope R_scope.\n"
+    per = []
+    for S in full:
+        K, v = S["key"], vals[S["key"]]
+        for n in ("c", "e", "lo", "hi", "fl", "sim_c", "sim_lo", "sim_hi", "sim_ex"):
+            gen += "Definition g_%s_%s : R := %s.\n" % (K, n, frac(v[n]))
+        G = "g_%s_" % K
+        p5 = " ".join(G + n for n in ("c", "e", "lo", "hi", "fl"))
+        p4 = " ".join(G + n for n in ("c", "e", "lo", "hi"))
+        unf = ", ".join(G + n for n in ("c", "e", "lo", "hi", "fl", "sim_c", "sim_lo", "sim_hi", "sim_ex"))
+        adm = "_ _ _ _ _ %sadmissible" % G
+        props = ("From Coq Require Import Reals Lra.\nFrom Interval Require Import Tactic.\n"
+                 "From RV Require Import IR.Model IR.Proofs Properties.C17.\nFrom W Require Import Gen_ir.\n"
+                 "Open Scope R_scope.\n"
+                 "Lemma %(G)sadmissible : admissible %(p5)s.\nProof. unfold admissible, %(unf)s. lra. Qed.\n"
+                 "Lemma %(G)sfloor_below_sim : %(G)sfl <= volts %(p4)s %(G)shi.\n"
+                 "Proof. unfold volts. rewrite clamp_id by (unfold %(G)slo, %(G)shi; lra). unfold %(unf)s. "
+                 "interval with (i_prec 80). Qed.\n"
+                 "Lemma %(G)ssim_matches : %(G)ssim_c = %(G)sc /\\ %(G)ssim_lo = %(G)slo /\\ %(G)ssim_hi = %(G)shi /\\ "
+                 "%(G)ssim_ex = 1 / %(G)se.\nProof. unfold %(unf)s. repeat split; lra. Qed.\n"
+                 "Lemma %(G)ssim_is_volts : forall d, Rpower (clamp %(G)ssim_lo %(G)ssim_hi d / %(G)ssim_c) %(G)ssim_ex = "
+                 "volts %(p4)s d.\nProof. intros d. destruct %(G)ssim_matches as (-> & -> & -> & ->). reflexivity. Qed.\n"
+                 % dict(G=G, p5=p5, p4=p4, unf=unf))
+        for t in ("no_exception", "in_range", "antitone", "strictly_decreasing_inside", "power_law", "floor",
+                  "infinite_voltages", "sim_no_exception", "sim_remembers"):
+            props += "Definition %s%s := C17_%s %s.\n" % (G, t, t, adm)
+        props += ("Definition %(G)ssim_inverse := fun d => C17_sim_inverse %(adm)s d %(G)sfloor_below_sim.\n"
+                  "Definition %(G)ssim_inverse_inf := fun d => C17_sim_inverse_inf %(adm)s d %(G)sfloor_below_sim.\n"
+                  "Definition %(G)ssim_sensor := fun s d => C17_sim_sensor %(adm)s s d %(G)sfloor_below_sim.\n"
+                  "Check (%(G)sin_range : forall v, %(G)slo <= reading %(p5)s v <= %(G)shi).\n"
+                  "Check (%(G)santitone : forall v1 v2, v1 <= v2 -> reading %(p5)s v2 <= reading %(p5)s v1).\n"
+                  "Check (%(G)ssim_inverse : forall d, reading %(p5)s (volts %(p4)s d) = Rmax (Rmin d %(G)shi) %(G)slo).\n"
+                  % dict(G=G, adm=adm, p5=p5, p4=p4))
+        ds = ("From Coq Require Import Reals Lra.\nFrom RV Require Import IR.Model.\nFrom W Require Import Gen_ir.\n"
+              "Open Scope R_scope.\n"
+              "Lemma %(G)sdatasheet : %(G)sc = %(c)s /\\ %(G)se = %(e)s /\\ %(G)slo = %(lo)s /\\ %(G)shi = %(hi)s.\n"
+              "Proof. unfold %(unf)s. repeat split; lra. Qed.\n"
+              "Lemma %(G)sis_model : %(G)sc = %(K)s_c /\\ %(G)se = %(K)s_e /\\ %(G)slo = %(K)s_lo /\\ %(G)shi = %(K)s_hi.\n"
+              "Proof. exact %(G)sdatasheet. Qed.\n"
+              % dict(G=G, K=K, unf=unf, c=S["c"], e=S["e"], lo=S["lo"], hi=S["hi"]))
+        per.append((S, "Gen_ir_%s" % K, props, "Gen_ds_%s" % K, ds))
+    return gen, per
+
+
+# ---------------------------------------------------------------------------
 def run(ctx):
     ctx.assumptions += [
         "C17: float arithmetic and libm pow idealised as exact real arithmetic / Rpower; every sampled double is "
@@ -500,9 +781,28 @@ def run(ctx):
         ob("impl:helper.getDistance() returns the d that was set", not gbad, repr(gbad[:3]))
         ob("runtime-scan:readings never increase over the 4096 ADC codes (about libm pow; not a theorem)",
            not mono_bad, repr(mono_bad[:3]))
+        # ---- regenerated data: the literals as the two source files have them now ----
+        vals, robs = regen_extract(REPO)
+        for o in robs:
+            ob(*o)
+        for S in SENSORS:
+            if "remembers" in vals.get(S["key"], {}):
+                ob("regen:%s.setDistance stores its raw parameter in the field getDistance() returns" % S["sim"],
+                   vals[S["key"]]["remembers"], "self.%s is assigned something else" % vals[S["key"]]["field"])
+        gen, per = regen_files(vals)
+        # Properties/C17.vo and IR/*.vo must be up to date before anything is compiled against them
+        while prover.is_alive() and not any(n == "make:coq" for (n, _, _) in list(ctx.obligations)):
+            time.sleep(0.05)
+        regen_items = []
+        if per:
+            rc, out = ctx.coq_file("Gen_ir", gen)
+            ob("regen:Gen_ir.v (the literals of both files as exact rationals) compiles", rc == 0, out[-1500:])
+            if rc == 0:
+                for S, pn, pt, dn, dt in per:
+                    regen_items += [(pn, pt), (dn, dt)]
         # ---- the lemma files, 16-way ------------------------------------
         nsh = 16 if quick else 64
-        files, index = [], {}
+        files, index = list(regen_items), {}
         # shards balanced by estimated cost (an interval goal ~45 ms, a lemma decided in Z ~8 ms)
         bins = [[0.0, []] for _ in range(nsh)]
         for lem in sorted(lemmas, key=lambda l: -cost(l[1])):
@@ -526,7 +826,14 @@ def run(ctx):
             index[fname] = (starts, len(part))
         res = ctx.coq_files_parallel(files, timeout=1500)
         import re
-        for fname, _ in files:
+        for S, pn, pt, dn, dt in (per if regen_items else []):
+            rc, out = res[pn]
+            ob("regen:%s re-proved for the regenerated %s literals: admissible, fl <= volts hi, helper uses 1/e and the "
+               "driver's c/lo/hi, generic theorems of Properties/C17.v instantiated" % (pn, S["cls"]), rc == 0, out[-1500:])
+            rc, out = res[dn]
+            ob("regen:%s regenerated %s constants equal the datasheet values %s*V^%s, %s..%s cm (and the model's)"
+               % (dn, S["cls"], S["c"], S["e"], S["lo"], S["hi"]), rc == 0, out[-1500:])
+        for fname, _ in files[len(regen_items):]:
             rc, out = res[fname]
             starts, n = index[fname]
             detail = ""
@@ -561,6 +868,7 @@ def run(ctx):
                                 ([] if quick else ["per-sample lemmas: all 3*4096 ADC codes"]),
             "samples": samples[:5],
             "tolerance": "1e-12 relative (ctol)",
+            "regenerated": {k: {n: str(x) for n, x in v.items()} for k, v in vals.items()},
         })
 
     try:
